@@ -17,7 +17,7 @@ From Coq Require Export List NArith Bool.
 Export ListNotations.
 Open Scope N_scope.
 
-Definition repaired : bool := false.
+Definition repaired : bool := true.
 
 Definition id := list N.          (* a Go string: its bytes *)
 Definition cfg := N.              (* abstract *httpserver.Config; Equal = N.eqb *)
